@@ -9,6 +9,7 @@
         _pre_open_hook / setup_jail                                    pre_open_hook
      breezy/bzr/smart/vfs.py
         VfsRequest.translate_client_path                               translate_vfs
+          (the translation before commit 54ddefb, kept for the regression theorems: translate_vfs_old)
         GetRequest.do  (backing_transport.get_bytes(relpath))          resolve
      breezy/bzr/smart/server.py
         BzrServerFactory._expand_userdirs                              expand_userdirs
@@ -182,8 +183,21 @@ Definition translate_plain (rcp0 client_path : bytes) : res bytes :=
       end
     else Fail "PathNotChild".
 
-(* vfs.py: VfsRequest.translate_client_path *)
+(* vfs.py: VfsRequest.translate_client_path (current code, commit 54ddefb):
+       decoded = urlutils.unescape(relpath.decode("utf-8")).encode("utf-8")
+       return request.SmartServerRequest.translate_client_path(self, decoded) *)
 Definition translate_vfs (rcp0 client_path : bytes) : res bytes :=
+  if negb (utf8_valid client_path) then Fail "UnicodeDecodeError"
+  else match unescape client_path with
+       | Fail e => Fail e
+       | Ok d => translate_plain rcp0 d
+       end.
+
+(* the translation BEFORE 54ddefb (unescape AFTER the jail check); only the
+   regression theorems C31_old_vfs_translation_*_refuted talk about it:
+       x = request.SmartServerRequest.translate_client_path(self, relpath)
+       return str(urlutils.unescape(x)) *)
+Definition translate_vfs_old (rcp0 client_path : bytes) : res bytes :=
   match translate_plain rcp0 client_path with
   | Fail e => Fail e
   | Ok x => unescape x
@@ -311,6 +325,12 @@ Section Backing.
     | Fail e => Fail e
     | Ok relpath => local_open (reached relpath)
     end.
+
+  Definition resolve_vfs_old (rcp client_path : bytes) : res (list bytes) :=
+    match translate_vfs_old rcp client_path with
+    | Fail e => Fail e
+    | Ok relpath => local_open (reached relpath)
+    end.
 End Backing.
 
 (* ---------- "inside the served directory" ---------- *)
@@ -326,25 +346,6 @@ Fixpoint depth_walk (d : nat) (segs : list bytes) : option nat :=
   end.
 Definition stays_inside (segs : list bytes) : bool :=
   match depth_walk 0 segs with Some _ => true | None => false end.
-
-(* ---------- the repaired VfsRequest.translate_client_path (see notes/C31.md) ---------- *)
-(* proposed repair: remove the client's escaping BEFORE the jail check instead
-   of removing the server's escaping after it:
-       decoded = urlutils.unescape(relpath.decode("utf-8")).encode("utf-8")
-       return request.SmartServerRequest.translate_client_path(self, decoded) *)
-Definition translate_vfs_fixed (rcp0 client_path : bytes) : res bytes :=
-  if negb (utf8_valid client_path) then Fail "UnicodeDecodeError"
-  else match unescape client_path with
-       | Fail e => Fail e
-       | Ok d => translate_plain rcp0 d
-       end.
-
-Definition resolve_vfs_fixed (expander : bytes -> bytes) (base_path rcp client_path : bytes)
-  : res (list bytes) :=
-  match translate_vfs_fixed rcp client_path with
-  | Fail e => Fail e
-  | Ok relpath => local_open (reached expander base_path relpath)
-  end.
 
 (* ---------- OS walk over the scratch tree of the correspondence run ---------- *)
 (* A tree is a list of directories and a list of files, each a segment list
@@ -439,10 +440,8 @@ Definition scratch_files : list (list bytes) :=
    [[120]]].
 
 Definition run_case (base_path : bytes) (homes : list (bytes * bytes))
-           (fixed vfs : bool) (rcp client_path : bytes) : obs :=
-  let tr := if vfs then (if fixed then translate_vfs_fixed rcp client_path
-                         else translate_vfs rcp client_path)
-            else translate_plain rcp client_path in
+           (vfs : bool) (rcp client_path : bytes) : obs :=
+  let tr := if vfs then translate_vfs rcp client_path else translate_plain rcp client_path in
   match tr with
   | Fail e => OL [OE e]
   | Ok relpath =>
@@ -471,8 +470,8 @@ Definition std_homes (T : bytes) : list (bytes * bytes) :=
    ([106;111;101], T ++ srv_suffix ++ pub_suffix ++ [47;97]);
    ([97;110;110], T ++ srv_suffix ++ [47;115;101;99;114;101;116;47]);
    ([98;111;98], T ++ srv_suffix ++ pub_suffix)].
-Definition run_case_T (T : bytes) (fixed vfs : bool) (rcp client_path : bytes) : obs :=
-  run_case (T ++ srv_suffix ++ pub_suffix ++ [SLASH]) (std_homes T) fixed vfs rcp client_path.
+Definition run_case_T (T : bytes) (vfs : bool) (rcp client_path : bytes) : obs :=
+  run_case (T ++ srv_suffix ++ pub_suffix ++ [SLASH]) (std_homes T) vfs rcp client_path.
 
 Definition run_jail (allowed : option (list (N * list bytes))) (url : N * list bytes) : obs :=
   obool (pre_open_hook allowed url).
